@@ -217,6 +217,13 @@ def renderBuffer (v : RVariant) (cc : Cfg) (P : Palettes) (cfg : Config) (heap :
     .ok (toks, heap)
   else renderLoop v cc P cfg heap buffer
 
+/-- The *string* `Console._render_buffer(buffer)` returns: the characters of the tokens. -/
+def renderBufferChars (v : RVariant) (cc : Cfg) (P : Palettes) (cfg : Config) (heap : Heap) (buffer : List Seg) :
+    Except RenderErr (List Char × Heap) :=
+  match renderBuffer v cc P cfg heap buffer with
+  | .ok (toks, heap') => .ok (serialise toks, heap')
+  | .error e => .error e
+
 /-! ## histories -/
 
 /-- One step of a history over shared `Style` objects. -/
@@ -265,6 +272,13 @@ def runOps (v : RVariant) (cc : Cfg) (P : Palettes) : Heap → List Op → List 
     | .error e => [.error e]
     | .ok (heap', none) => runOps v cc P heap' rest
     | .ok (heap', some toks) => .ok toks :: runOps v cc P heap' rest
+
+/-- The characters every writing step of a history wrote. -/
+def runOpsChars (v : RVariant) (cc : Cfg) (P : Palettes) (heap : Heap) (ops : List Op) : List (Except RenderErr (List Char)) :=
+  (runOps v cc P heap ops).map fun r =>
+    match r with
+    | .ok toks => .ok (serialise toks)
+    | .error e => .error e
 
 /-! ## the specification side: what the terminal must show
 
